@@ -145,6 +145,11 @@ def c20(ctx):
 @register("C12")
 def c12(ctx):
     quick = ctx.tier == "quick"
+    # a cursor walk whose pages alternate with deletes, writes and compaction: the cursor of the code as it is yields every key
+    # that was present all the time; the cursors of the seeded changes S-C12-5 / S-C12-6 must not
+    vlib.design_check(ctx, "ScanWalk", "ScanWalk_offset.cfg", name="scanwalk")
+    vlib.design_expect_violation(ctx, "ScanWalk", "ScanWalk_mod.cfg", "WalkComplete", "seeded change S-C12-5", name="scanwalk-mod")
+    vlib.design_expect_violation(ctx, "ScanWalk", "ScanWalk_rank.cfg", "WalkComplete", "seeded change S-C12-6", name="scanwalk-rank")
     ctx.assumptions += ["no writes run while a scan is in progress (the statement quantifies over keys present during the whole iteration)",
                         "the set of keys a raw cursor walk must yield is read white-box from the scanned fragment"]
     # 1. storage engine cursors (KVStore.tla ScanComplete + real kvstore scans of every exported path)
